@@ -6,7 +6,7 @@ import Comdex.Model.LendRates
 `acc.*` — floating-point family (x/rewards `CalculationOfRewards`, vault stability fee, locker savings)
   acc.begin
   acc.calc   amount lsrRaw secs xbits ybits powbits  outcome resRaw|-
-  acc.track  kind(vault|locker) amount rateRaw now height posBTime cfgBTime xbits ybits powbits trBefore|none  outcome trAfter|none paid
+  acc.track  kind(vault|locker) amount rateRaw now height posBTime cfgBTime xbits ybits powbits trBefore|none  outcome trAfter|none paid ctxHeight heightAfter bTimeAfter
   acc.hyp    name count failures            (statistics of the Go-side scan of the `FloatOps` hypotheses; informational)
 `lr.*` — fixed-point family (x/lend)
   lr.begin
@@ -141,10 +141,14 @@ def handle (st : St) (seq : String) (f : List String) : St × List String :=
     match parseInt? a, parseInt? l, parseInt? s, parseNat? xb, parseNat? yb, parseNat? pb with
     | some a, some l, some s, some xb, some yb, some pb => handleCalc st seq a l s xb yb pb o r
     | _, _, _, _, _, _ => (st, [s!"BAD\t{seq}\tacc.calc args"])
-  | ["acc.track", _kind, a, rt, now, h, pbt, cbt, _xb, _yb, pb, trb, o, ta, paid] =>
+  | ["acc.track", _kind, a, rt, now, h, pbt, cbt, _xb, _yb, pb, trb, o, ta, paid, ch, ha, bta] =>
     match parseInt? a, parseInt? rt, parseInt? now, parseInt? h, parseInt? pbt, parseInt? cbt, parseNat? pb, parseTr trb with
     | some a, some rt, some now, some h, some pbt, some cbt, some pb, some trb =>
-      handleTrack st seq a rt now h pbt cbt pb trb o ta paid
+      let (st', out) := handleTrack st seq a rt now h pbt cbt pb trb o ta paid
+      -- the stamp written on the position: (ctx height, now) after an accrual, untouched when the rate is zero or on error
+      let want := if o = "ok" && rt != 0 then s!"{ch} {now}" else s!"{h} {pbt}"
+      let d := if want = s!"{ha} {bta}" then [] else [s!"DIFF\t{seq}\tstamp after: model={want}\timpl={ha} {bta}"]
+      (st', out ++ d)
     | _, _, _, _, _, _, _, _ => (st, [s!"BAD\t{seq}\tacc.track args"])
   | _ => (st, [s!"BAD\t{seq}\tunknown acc line"])
 
